@@ -18,6 +18,11 @@ class StrObj:
     canon_fields = ('s',)
     def __init__(self, s): self.s = s
     def model_drop(self, ex): pass
+def _str(v):
+    while isinstance(v, Ref): v = v.lv.get()
+    if isinstance(v, StrObj): return v.s
+    if isinstance(v, Opaque) and v.what.startswith('"'): return 'literal ' + v.what      # a string literal in the code under analysis
+    raise Unknown('string value %r' % (v,))
 class HostObj:
     canon_fields = ('host', 'port')
     def __init__(self, host, port): self.host, self.port = host, port
@@ -53,11 +58,14 @@ class TlsConnectObj:
     def model_drop(self, ex): pass
 
 
+_DUMP = {}
 class ConnCtx:
-    def __init__(self):
-        self.fns = parse_mir(mir.dep_of_mount('actix-tls', 'actix-tls') + '\n' + mir.repo_crate('actix-utils'))
+    def __init__(self, flavour='rustls_0_23'):
+        self.flavour = flavour
+        if 'txt' not in _DUMP: _DUMP['txt'] = mir.dep_of_mount('actix-tls', 'actix-tls') + '\n' + mir.repo_crate('actix-utils')
+        self.fns = parse_mir(_DUMP['txt'])
         R = core.REPO + '/actix-tls/src/connect/'
-        self.structs, self.enums = parse_layouts([R + f for f in ('info.rs', 'connection.rs', 'connector.rs', 'resolver.rs', 'tcp.rs', 'connect_addrs.rs', 'error.rs', 'rustls_0_23.rs')] +
+        self.structs, self.enums = parse_layouts([R + f for f in ('info.rs', 'connection.rs', 'connector.rs', 'resolver.rs', 'tcp.rs', 'connect_addrs.rs', 'error.rs', flavour + '.rs')] +
                                                  [core.REPO + '/actix-utils/src/future/ready.rs'])
         rx = Exec(self.fns, MODELS, self.structs, self.enums)
         def M(ty, meth, tr=None, contains=''):
@@ -68,7 +76,7 @@ class ConnCtx:
         self.SET_PORT = M('ConnectInfo', 'set_port'); self.SET_LOCAL = M('ConnectInfo', 'set_local_addr')
         self.TCP_CALL = M('TcpConnectorService', 'call', 'Service'); self.TCP_POLL = M('TcpConnectorFut', 'poll', 'Future')
         self.CONN_CALL = M('ConnectorService', 'call', 'Service'); self.CONN_POLL = M('ConnectServiceResponse', 'poll', 'Future')
-        self.TLS_CALL = M('TlsConnectorService', 'call', 'Service', 'connect/rustls_0_23'); self.TLS_POLL = M('ConnectFut', 'poll', 'Future', 'connect/rustls_0_23')
+        self.TLS_CALL = M('TlsConnectorService', 'call', 'Service', 'connect/' + flavour); self.TLS_POLL = M('ConnectFut', 'poll', 'Future', 'connect/' + flavour)
         self.CONNECTION_NEW = M('Connection', 'new', None, 'connection.rs')
         for need in ('ConnectInfo', 'Connection', 'ConnectorService', 'ResolverService'):
             if need not in self.structs: raise core.Inconclusive('layout of %s not found' % need)
@@ -195,14 +203,12 @@ def m_opt_expect(ex, a, t):
     if a[0].variant != 'Some': raise Panic('expect on None')
     return a[0].f[0].v
 def m_server_name(ex, a, t):
-    s = a[0]
-    while isinstance(s, Ref): s = s.lv.get()
+    s = StrObj(_str(a[0]))
     w = ex.connworld
-    if w.name_valid: return Enum('Result', 'Ok', [StrObj(s.s)])
+    if w.name_valid or s.s.startswith('literal '): return Enum('Result', 'Ok', [StrObj(s.s)])
     return Enum('Result', 'Err', [Opaque('InvalidDnsNameError')])
 def m_tls_connector_connect(ex, a, t):
-    w = ex.connworld; name = a[1]
-    while isinstance(name, Ref): name = name.lv.get()
+    w = ex.connworld; name = StrObj(_str(a[1]))
     w.tls_names.append(name.s)
     return TlsConnectObj(w, name.s, a[2])
 def m_tls_connect_poll(ex, a, t):
@@ -217,7 +223,36 @@ def m_tls_connect_poll(ex, a, t):
     e = IoErr(Enum('ErrorKind', 'InvalidData')); e.tls = True
     return Enum('Poll', 'Ready', [Enum('Result', 'Err', [e])])
 def m_io_error_new(ex, a, t):
-    e = IoErr(a[0] if isinstance(a[0], Enum) else Enum('ErrorKind', 'Other')); return e
+    e = IoErr(a[0] if isinstance(a[0], Enum) else Enum('ErrorKind', 'Other'))
+    # the payload: `format!("{}", err)` is modelled as its argument list, so the error keeps a reference to what it was built from
+    pl = a[1] if len(a) > 1 else None
+    if isinstance(pl, FmtObj) and any(getattr(x, 'tls', False) for x in pl.args): e.tls = True
+    return e
+# OpenSSL flavour: SslConnector::configure -> ConnectConfiguration::into_ssl(host) -> tokio_openssl::SslStream::new(ssl, io) -> poll_connect
+class SslObj:
+    canon_fields = ('name',)
+    def __init__(self, name): self.name = name
+    def model_drop(self, ex): pass
+def m_ssl_configure(ex, a, t): return Enum('Result', 'Ok', [Opaque('connect-configuration')])
+def m_into_ssl(ex, a, t):
+    w = ex.connworld; name = StrObj(_str(a[1]))
+    w.tls_names.append(name.s)
+    return Enum('Result', 'Ok', [SslObj(name.s)])
+def m_sslstream_new(ex, a, t):
+    ssl = a[0]
+    if not isinstance(ssl, SslObj): raise Unknown('SslStream::new with an Ssl that did not come from into_ssl')
+    return Enum('Result', 'Ok', [TlsConnectObj(ex.connworld, ssl.name, a[1])])
+def m_ssl_poll_connect(ex, a, t):
+    c = a[0]
+    while isinstance(c, Ref): c = c.lv.get()
+    w = c.w
+    if c.done: raise Panic('SslStream::poll_connect after completion')
+    ans = w.answer('tls', ['ok', 'err', 'p'])
+    if ans == 'p': return Enum('Poll', 'Pending')
+    c.done = True
+    if ans == 'ok': return Enum('Poll', 'Ready', [Enum('Result', 'Ok', [UNIT])])
+    e = Opaque('openssl::ssl::Error'); e.tls = True
+    return Enum('Poll', 'Ready', [Enum('Result', 'Err', [e])])
 def m_mem_take_addrs(ex, a, t):
     lv = a[0].lv; old = lv.get(); lv.set(Enum('ConnectAddrs', 'None')); return old
 
@@ -231,6 +266,8 @@ MODELS[:0] = [
     (r'TcpStream::peer_addr$', m_peer_addr), (r'^Poll::<Result<.*>>::map_ok::<', m_poll_map_ok), (r'^Box::<std::io::Error>::new$', m_box_err_new),
     (r'^<JoinError as Into<std::io::Error>>::into$', m_joinerr_into), (r'^Option::<.*>::and_then::<', m_opt_and_then), (r'^Option::<.*>::as_mut$', m_opt_as_mut),
     (r'^Option::<.*>::expect$', m_opt_expect), (r'^<ServerName<.*> as TryFrom<&str>>::try_from$', m_server_name), (r'^ServerName::<.*>::to_owned$', srvmodels.m_identity),
+    (r'SslConnector::configure$', m_ssl_configure), (r'ConnectConfiguration::into_ssl$', m_into_ssl), (r'SslStream::<.*>::new$', m_sslstream_new), (r'SslStream::<.*>::poll_connect$', m_ssl_poll_connect),
+    (r'^<SslConnector as Clone>::clone$', lambda ex, a, t: target(a[0])),
     (r'TlsConnector::connect::<', m_tls_connector_connect), (r'^<(tokio_rustls::)?Connect<.*> as Future>::poll$', m_tls_connect_poll),
     (r'^std::io::Error::new::<', m_io_error_new), (r'^std::mem::take::<ConnectAddrs>$', m_mem_take_addrs),
     (r'^<Rc<dyn Resolve> as Clone>::clone$', srvmodels.m_identity),
@@ -350,7 +387,7 @@ def body_tls(ctx):
     def body(ex, acc):
         w = ConnWorld(ctx, ex, acc)
         host = ex.pick('host', ['example.org', 'bad name'])
-        w.name_valid = host == 'example.org'
+        w.name_valid = host == 'example.org' or ctx.flavour == 'openssl'   # OpenSSL has no name-syntax check of its own at this layer: every name goes to the library
         stream = Struct('TcpStream', [Opaque('the stream')])
         conn = ex.run(ctx.CONNECTION_NEW, [HostObj(host, None), stream])
         svc = Struct('TlsConnectorService', [Opaque('client config')])
@@ -365,7 +402,11 @@ def body_tls(ctx):
         if ans == 'ok':
             ok = res.variant == 'Ok'
             io = res.f[0].v.f[ctx.structs['Connection'].index('io')].v if ok else None
-            acc.violated(ex, 'C19/tls_success_wraps_the_same_stream', not (ok and isinstance(io, Struct) and isinstance(io.f[0].v, Struct) and io.f[0].v.f[0].v is stream.f[0].v), hist=w.hist)
+            if ctx.flavour == 'openssl': same = ok and isinstance(io, TlsConnectObj) and isinstance(io.io, Struct) and io.io.f[0].v is stream.f[0].v
+            else: same = ok and isinstance(io, Struct) and isinstance(io.f[0].v, Struct) and io.f[0].v.f[0].v is stream.f[0].v
+            acc.violated(ex, 'C19/tls_success_wraps_the_same_stream', not same, hist=w.hist)
+            req = res.f[0].v.f[ctx.structs['Connection'].index('req')].v if ok else None
+            acc.violated(ex, 'C19/tls_success_keeps_the_request', not (ok and isinstance(req, HostObj) and req.host == host), hist=w.hist)
             acc.wit['c19_tls_ok'] += 1
         else:
             acc.violated(ex, 'C19/tls_back_end_failure_is_propagated', not (res.variant == 'Err' and getattr(res.f[0].v, 'tls', False)), hist=w.hist)
@@ -377,13 +418,13 @@ def run_c19(rep, tier, seed):
     rep.engines.add('mirsym (engine S) + z3 %s' % z3.get_version_string())
     rep.models |= {'async fn connect(addr, local_addr) = scripted future logging its arguments (coroutine bodies are outside engine S)',
                    'spawn_blocking / JoinHandle = scripted lookup (list of 2 / 1 / 0 addresses, lookup error, join error, Pending)',
-                   'str::parse::<IpAddr> = Python ipaddress; format! = argument list', 'tokio_rustls::TlsConnector::connect = scripted handshake recording the server name',
+                   'str::parse::<IpAddr> = Python ipaddress; format! = argument list', 'tokio_rustls::TlsConnector::connect = scripted handshake recording the server name', 'openssl ConnectConfiguration::into_ssl = records the host name; tokio_openssl::SslStream::poll_connect = scripted handshake',
                    'ServerName::try_from = valid / invalid chosen by the driver', 'ReusableBoxFuture = replaceable boxed future', 'VecDeque / Vec / Option / Poll::map_ok models'}
     rep.assumptions += ['PARTIAL: the custom-resolver arm (an async block), Host for String/&str parsing, the connect() body (v4/v6 bind) and everything inside the TLS library (certificate validity, issuers, data integrity) are NOT covered',
                         'this driver has no native differential validation (the scripted outcomes are not expressible through the real DNS / socket layer); its trust rests on the engine validated by the other drivers']
-    ctx = ConnCtx()
+    ctx = ConnCtx(); octx = ConnCtx('openssl')
     t0 = time.time()
-    for label, body in (('connector', body_connector(ctx)), ('tcp-unresolved', body_tcp_unresolved(ctx)), ('tls-connector', body_tls(ctx))):
+    for label, body, ctx in (('connector', body_connector(ctx), ctx), ('tcp-unresolved', body_tcp_unresolved(ctx), ctx), ('tls-connector rustls-0.23', body_tls(ctx), ctx), ('tls-connector openssl', body_tls(octx), octx)):
         acc = explore(ctx.mk, body, seed=seed, seed_paths=200)
         rep.bounds[label] = {'paths': acc.paths}
         acc.to_report(rep)
